@@ -68,18 +68,29 @@ def judge_synth(text, k, tables, sel, ctx, case, r=None, tail=0):
     h = scan.Harness(registry=reggen.engine_registry(tables), tap=need_tap)
     desc = f"synthetic registry on text {text!r} k={k}"
     report = _reporter(ctx, case, desc)
+    raisers = any(hs == reggen.RAISE for tb in tables for hs in tb.values())
     try:
         root = h.scan(text, k)
+    except reggen.SyntheticDecoderError:
+        ctx.count("synthetic_decoder_failure_propagated(not judged)")
+        return
     except Exception as e:  # noqa: BLE001
         ctx.violation("engine:" + scan.exc_key(e), f"scan raised {scan.exc_text(e)}; {desc}", case)
         return
     counts = ctx.counters
-    wf = all(reggen.spec_in_bounds(hh, len(t)) for tb in tables for t, hs in tb.items() for hh in hs)
+    if raisers:
+        ctx.count("scans_of_registries_with_a_failing_decoder_that_returned")
+    wf = all(reggen.spec_in_bounds(hh, len(t)) for tb in tables for t, hs in tb.items() if hs != reggen.RAISE for hh in hs)
     if not wf:
         ctx.count("synthetic_not_in_bounds(skipped)")
         return
     if sel.c06:
-        want = em.scan(text, k, reggen.model_registry(tables))
+        try:
+            want = em.scan(text, k, reggen.model_registry(tables))
+        except reggen.SyntheticDecoderError:
+            # the reference procedure reaches the failing decoder, the engine returned a tree: it went on after a failure
+            report("model:decoder-failure-swallowed", "a decoder raised on a value the reference procedure searches, but the scan returned a tree")
+            return
         got = tree.canon(root)
         ctx.count("c06_synthetic_compared")
         if case.get("kind") != "wide":
@@ -96,7 +107,11 @@ def judge_synth(text, k, tables, sel, ctx, case, r=None, tail=0):
     if sel.c07:
         me.check_c07_bound(root, k, h.tap, report, counts)
         h2 = scan.Harness(registry=reggen.engine_registry(tables), tap=True)
-        root2 = h2.scan(text, k + 1)
+        try:
+            root2 = h2.scan(text, k + 1)
+        except reggen.SyntheticDecoderError:
+            ctx.count("synthetic_decoder_failure_propagated(not judged)")
+            return
         me.check_c07_monotone(root, k, root2, h2.tap, report, counts)
     if sel.c08:
         me.check_c08(root, h.tap, report, counts, r, registry=reggen.engine_registry(tables), tail=tail)
@@ -106,7 +121,7 @@ def judge_synth(text, k, tables, sel, ctx, case, r=None, tail=0):
 
 def _classify(tables, text, ctx):
     """Interaction classes present among the hits on the top text (evidence: every class must be seen)."""
-    hits = [h for tb in tables for h in tb.get(text, []) if h[1]]
+    hits = [h for tb in tables if tb.get(text, []) != reggen.RAISE for h in tb.get(text, []) if h[1]]
     for a, b in itertools.combinations(hits, 2):
         (s1, e1), (s2, e2) = (a[3], a[4]), (b[3], b[4])
         if (s1, e1) == (s2, e2):
@@ -249,7 +264,7 @@ def run_shard(pid, sel, spec, ctx):
             judge_synth(text, k, tables, sel, ctx, case, r)
             if i % 211 == 1:
                 ctx.sample({"text": repr(text), "k": k, "decoders": len(tables),
-                            "hits_on_text": sum(len(t.get(text, [])) for t in tables)})
+                            "hits_on_text": sum(len(t.get(text, [])) for t in tables if t.get(text, []) != reggen.RAISE)})
         return
     for label, data, depth in inputs.generate(spec, r):
         if ctx.expired():
